@@ -71,8 +71,10 @@ func (h) Rule() string {
 		"1–3 reader goroutines (2–6 Reader() calls each) over 2–4 shared ids; configurations cycle through {mem,fs}×{safe,unsafe} on " +
 		"ice v1 with a shrunk merge plan (merges and persists happen) plus ice v2 with merging switched off; GOMAXPROCS 1–8, seeded " +
 		"yields/sleeps in the segment plugin, the event callback and between calls; a seeded share of the calls is held in " +
-		"prepareSegment's first DocsMatchingTerms until another batch was introduced; a case is non-trivial when at least two calls " +
-		"overlap in time, distinct by (configuration, workload, recorded introduction order)"
+		"prepareSegment's first DocsMatchingTerms until another batch was introduced; plus deterministic scenarios (a set-up batch, " +
+		"then 2 or 3 conflicting calls that all read the set-up root and are introduced in a forced order: every release order of " +
+		"every generated workload); a case is non-trivial when at least two calls overlap in time, distinct by (configuration, " +
+		"workload, recorded introduction order)"
 }
 
 // ---------------------------------------------------------------- documents
@@ -277,6 +279,9 @@ type run struct {
 	recording bool
 
 	introSwaps atomic.Int64 // root swaps by introduceSegment so far
+	order      []int        // forced introduction order (call numbers) of a deterministic scenario, or nil
+	orderBase  int64        // introSwaps when the concurrent part started
+	arrived    atomic.Int64 // calls of `order` that have read their root and stand at the gate
 	inBatch    atomic.Int64 // Batch calls in flight
 	waiting    atomic.Int64 // of those, held in the gate
 	gatePct    int
@@ -305,6 +310,23 @@ func (rn *run) inPrepare() {
 	cr.tPrep = stamp()
 	victim := cr.victim
 	rn.mu.Unlock()
+	if pos := rn.orderPos(cr.c); pos >= 0 {
+		// deterministic scenario: every call reads the same root, then they are introduced in the forced order
+		cr.gateWaited = true
+		rn.arrived.Add(1)
+		deadline := time.Now().Add(300 * time.Millisecond)
+		for rn.arrived.Load() < int64(len(rn.order)) && time.Now().Before(deadline) {
+			time.Sleep(20 * time.Microsecond)
+		}
+		deadline = time.Now().Add(300 * time.Millisecond)
+		for rn.introSwaps.Load()-rn.orderBase < int64(pos) && time.Now().Before(deadline) {
+			time.Sleep(20 * time.Microsecond)
+		}
+		if rn.introSwaps.Load()-rn.orderBase >= int64(pos) && pos > 0 {
+			cr.gateReleased = true
+		}
+		return
+	}
 	if !victim {
 		return
 	}
@@ -325,6 +347,15 @@ func (rn *run) inPrepare() {
 		time.Sleep(50 * time.Microsecond)
 	}
 	rn.waiting.Add(-1)
+}
+
+func (rn *run) orderPos(c int) int {
+	for i, x := range rn.order {
+		if x == c {
+			return i
+		}
+	}
+	return -1
 }
 
 func (rn *run) trace(w *index.Writer, kind string, snap *index.Snapshot, x uint64) {
@@ -560,6 +591,15 @@ func openCase(line string, work string) error {
 	}
 	rn := &run{byGo: map[uint64]*callRec{}, held: map[segment.Segment]bool{}, recording: true,
 		pt: &perturber{seed: seed, on: true}, gatePct: kv(f, "gate", 0)}
+	for _, x := range f {
+		if strings.HasPrefix(x, "order=") {
+			for _, c := range strings.Split(x[6:], ",") {
+				if n, err := strconv.Atoi(c); err == nil {
+					rn.order = append(rn.order, n)
+				}
+			}
+		}
+	}
 	ic := cfg.VerifIndexConfig()
 	ic.UnsafeBatch = parts[2] == "unsafe"
 	ic.SegmentType = "ice"
@@ -633,7 +673,29 @@ func runCase(out func(string, string), st sink) {
 	startCh := make(chan struct{})
 	seed := rn.pt.seed
 	nobs := 0
+	// writer 0 is the set-up: its calls run to completion before anybody else starts
 	for _, w := range ws {
+		if w.wid != 0 {
+			continue
+		}
+		for j, ops := range w.batch {
+			cr := &callRec{c: j + 1, wid: 0, ops: ops}
+			rn.calls = append(rn.calls, cr)
+			b, err := parseOps(ops, cr.c)
+			if err != nil {
+				cr.err = err
+				continue
+			}
+			cr.tInv = stamp()
+			cr.err = rn.w.Batch(b)
+			cr.tRet = stamp()
+		}
+	}
+	rn.orderBase = rn.introSwaps.Load()
+	for _, w := range ws {
+		if w.wid == 0 {
+			continue
+		}
 		// the calls of this writer
 		crs := make([]*callRec, len(w.batch))
 		for j, ops := range w.batch {
@@ -683,6 +745,9 @@ func runCase(out func(string, string), st sink) {
 			<-startCh
 			for i := 0; i < r.n; i++ {
 				rn.pt.yield(uint64(200 + r.rid))
+				if rn.order != nil {
+					time.Sleep(time.Duration(20+mix(seed^uint64(i))%60) * time.Microsecond)
+				}
 				if mix(seed^uint64(r.rid*31+i))%3 == 0 {
 					time.Sleep(time.Duration(50+mix(seed^uint64(i))%400) * time.Microsecond)
 				}
@@ -831,6 +896,22 @@ func runCase(out func(string, string), st sink) {
 				overlap = true
 			}
 		}
+	}
+	if rn.order != nil {
+		var want []string
+		for _, c := range rn.order {
+			want = append(want, strconv.Itoa(c))
+		}
+		var got []string
+		if int(rn.orderBase) <= len(order) {
+			got = order[int(rn.orderBase):]
+		}
+		if strings.Join(got, ",") == strings.Join(want, ",") {
+			st.Count("forced-order-achieved")
+		} else {
+			st.Count("forced-order-missed")
+		}
+		st.Count(fmt.Sprintf("forced-order-calls:%d", len(rn.order)))
 	}
 	st.Count(fmt.Sprintf("writers:%d", len(ws)))
 	st.Count(fmt.Sprintf("readers:%d", len(rs)))
@@ -1063,12 +1144,74 @@ func childMain(work string) {
 
 // ---------------------------------------------------------------- Gen
 
+var perms = map[int][][]int{
+	2: {{1, 2}, {2, 1}},
+	3: {{1, 2, 3}, {1, 3, 2}, {2, 1, 3}, {2, 3, 1}, {3, 1, 2}, {3, 2, 1}},
+}
+
+// deterministic scenarios: a set-up batch, then 2 or 3 conflicting calls that all read the set-up root and are
+// introduced in a forced order — every gate-release order of every generated workload
+func genForced(r *hlib.Rand, nwork int, cfgs []string, emit func(string)) {
+	for d := 0; d < nwork; d++ {
+		n := 2 + d%2
+		k := r.Range(2, 3)
+		body := 0
+		var setup []string
+		for id := 1; id <= k; id++ {
+			body++
+			setup = append(setup, fmt.Sprintf("upd:%d:%d", id, body))
+		}
+		ws := make([]string, n)
+		for w := 1; w <= n; w++ {
+			m := r.Range(1, 2)
+			first := r.Intn(k)
+			var ops []string
+			for i := 0; i < m; i++ {
+				id := 1 + (first+i)%k
+				o := r.Weighted(20, 50, 30)
+				if i == 0 && o == 2 {
+					o = 1 // every call adds a document, so that its introduction is observed
+				}
+				switch o {
+				case 0:
+					body++
+					ops = append(ops, fmt.Sprintf("ins:%d:%d", id, body))
+				case 1:
+					body++
+					ops = append(ops, fmt.Sprintf("upd:%d:%d", id, body))
+				default:
+					ops = append(ops, fmt.Sprintf("del:%d", id))
+				}
+			}
+			ws[w-1] = fmt.Sprintf("w %d %s", w, strings.Join(ops, " "))
+		}
+		for pi, perm := range perms[n] {
+			var ord []string
+			for _, w := range perm {
+				ord = append(ord, strconv.Itoa(100*w+1))
+			}
+			cfg := cfgs[(d+pi)%len(cfgs)]
+			emit(fmt.Sprintf("case %s k=%d gmp=%d sd=%d gate=0 order=%s", cfg, k, []int{2, 4, 8}[(d+pi)%3], r.Intn(1<<30), strings.Join(ord, ",")))
+			emit("w 0 " + strings.Join(setup, " "))
+			for _, l := range ws {
+				emit(l)
+			}
+			emit("r 1 3")
+			emit("go")
+			emit("end")
+		}
+	}
+}
+
 func (h) Gen(r *hlib.Rand, tier string, scale int, emit func(string)) {
-	ncases := 150 * scale
+	ncases := 400 * scale
+	nforced := 12 * scale // workloads; each with all 2 or 6 release orders
 	if tier == "thorough" {
-		ncases = 3000 * scale
+		ncases = 6000 * scale
+		nforced = 300 * scale
 	}
 	cfgs := []string{"mem-v1-unsafe", "mem-v1-safe", "fs-v1-unsafe", "fs-v1-safe", "mem-v2-unsafe", "mem-v1-unsafe", "fs-v2-unsafe", "mem-v2-safe"}
+	genForced(r, nforced, cfgs, emit)
 	for c := 0; c < ncases; c++ {
 		cfg := cfgs[c%len(cfgs)]
 		k := r.Range(2, 4)
